@@ -136,7 +136,7 @@ func c08Ctx() (context.Context, context.CancelFunc) {
 }
 
 // attacker strategies for a rogue peer that does not hold the join code
-var c08Strategies = []string{"random-proof", "other-code", "replay-other-session", "reflect", "reflect-role-rewritten", "wrong-version", "role-swap", "short", "long", "silence", "zero-mac"}
+var c08Strategies = []string{"random-proof", "other-code", "replay-other-session", "reflect", "reflect-role-rewritten", "wrong-version", "role-swap", "short", "long", "silence", "zero-mac", "fin-without-reply"}
 
 // craft builds the attacker's message for a strategy. own is the exporter of the attacker's end of the
 // attacked connection, seen is the honest side's message (for reflection), captured a message recorded
@@ -332,6 +332,9 @@ func TestVerifC08Auth(t *testing.T) {
 				if msg := c08Craft(strategy, a, authRoleReceive, seen, capR); msg != nil {
 					st.Write(msg)
 				}
+				if strategy == "fin-without-reply" {
+					st.Close() // ends its stream direction cleanly without a single reply byte
+				}
 			}
 			if err := <-done; err == nil {
 				rec.Fail(rt, "rogue-listener-accepted:"+strategy, fmt.Sprintf("the honest sender (code %q) accepted a listener that does not hold the code (strategy %s)", honestCode, strategy))
@@ -351,6 +354,9 @@ func TestVerifC08Auth(t *testing.T) {
 					st.Write(msg)
 				} else {
 					st.Write([]byte{}) // silence
+				}
+				if strategy == "fin-without-reply" {
+					st.Close()
 				}
 			}
 			if err := <-done; err == nil {
